@@ -216,7 +216,7 @@ class Monitor:
             fr.verdict = self.judge_call(fr, True)
             if fr.verdict['verdict'] == 'violated':
                 culprit = self.find_culprit(fr)
-                self.report(culprit if culprit is not None else fr)
+                self.report(culprit if culprit is not None else fr, top=fr)
                 if culprit is not None:
                     self.v.count('top_violation_blamed_on_inner:' + culprit.cls)
         elif self.judge_inner and fr.cls not in WRAPPERS and self.inner_judged < self.inner_cap and (
@@ -225,7 +225,7 @@ class Monitor:
             fr.verdict = self.judge_call(fr, False)
             if fr.verdict is not None and fr.verdict['verdict'] == 'violated':
                 culprit = self.find_culprit(fr)
-                self.report(culprit if culprit is not None else fr)
+                self.report(culprit if culprit is not None else fr, top=self.stack[0] if self.stack else None)
                 if parent is not None:
                     parent.child_viol = True
         if top:
@@ -355,10 +355,19 @@ class Monitor:
         fr.jctx = (conds, defs, deps, rng, pdesc, lvl)
         return res
 
-    def report(self, fr):
+    def report(self, fr, top=None):
         res = fr.verdict
         conds, defs, deps, rng, pdesc, lvl = fr.jctx
         mech, extra = classify(fr, res, fr.o_sh, conds, defs, deps, rng, self.budget)
+        if top is not None and top is not fr:
+            # the violated call was made on behalf of another rule: an inner rule that is unsound when called
+            # directly (a recorded finding) is one thing, a composite rule that lets it loose on its input another
+            r_ = top.rule
+            while hasattr(r_, 'rule'):
+                r_ = r_.rule
+            tcls = type(r_).__name__
+            if tcls != fr.cls and not mech.startswith(tcls):
+                mech = tcls + '>' + mech
         desc = '%s.eval(%s)%s -> %s : %s; draws %s' % (
             fr.cls, O.show(fr.e_sh)[:160], (' under ' + ', '.join(O.show(c) for c in conds)[:120]) if conds else '',
             (fr.out_str or '')[:160], extra or res.get('what'),
